@@ -11,7 +11,7 @@ def bootstrap(model_source, tag):
     """Write the model into a module, let ORMatic generate its DAO classes, create an in-memory database."""
     import krrood
 
-    assert "/tmp/hunt1/C07/src" in krrood.__file__, krrood.__file__
+    pass  # (the agent pinned its worktree path here)
     from dataclasses import is_dataclass
     from sqlalchemy.orm import Session, configure_mappers
     from krrood.class_diagrams.class_diagram import ClassDiagram
